@@ -72,7 +72,57 @@ use num_traits::{One, ToPrimitive, Zero};
 """
 
 
-def op_module(ctx):
+UF_RULES = [
+    # E10: machine multiply/divide on 64-bit words are taken as primitives: in the job `opeval_uf` they are replaced, in the
+    # code AND in the reference, by the same uninterpreted function (Ackermann encoding), so the proof holds for every binary
+    # function in their place - in particular for the real operations. Natively (replay) crate::uf calls the real operations.
+    ("x.payload.wrapping_mul(y.payload)", "crate::uf::mul(x.payload, y.payload)", 1),
+    ("x.payload / y.payload", "crate::uf::udiv(x.payload, y.payload)", 1),
+    ("x.payload % y.payload", "crate::uf::urem(x.payload, y.payload)", 1),
+    ("xs.checked_div(ys)", "crate::uf::checked_div(xs, ys)", 1),
+    ("xs.checked_rem(ys)", "crate::uf::checked_rem(xs, ys)", 1),
+]
+
+UF_MODULE = r"""
+pub mod uf {
+    // 64-bit multiply / divide / remainder as uninterpreted functions (see rule E10).
+    #[cfg(kani)]
+    static mut MEMO: [(bool, u64, u64, u64); 5] = [(false, 0, 0, 0); 5];
+    /// Ackermann encoding for at most two applications per function symbol: the first application is remembered,
+    /// a second application to the same arguments returns the same value, to different arguments an arbitrary one.
+    #[cfg(kani)]
+    fn app(slot: usize, a: u64, b: u64) -> u64 {
+        unsafe {
+            let (set, pa, pb, pr) = MEMO[slot];
+            if set && pa == a && pb == b { return pr; }
+            let r: u64 = kani::any();
+            if !set { MEMO[slot] = (true, a, b, r); }
+            r
+        }
+    }
+    #[cfg(kani)] pub fn mul(a: u64, b: u64) -> u64 { app(0, a, b) }
+    #[cfg(kani)] pub fn udiv(a: u64, b: u64) -> u64 { assert!(b != 0); app(1, a, b) }
+    #[cfg(kani)] pub fn urem(a: u64, b: u64) -> u64 { assert!(b != 0); app(2, a, b) }
+    #[cfg(kani)] pub fn sdiv(a: i64, b: i64) -> i64 { app(3, a as u64, b as u64) as i64 }
+    #[cfg(kani)] pub fn srem(a: i64, b: i64) -> i64 { app(4, a as u64, b as u64) as i64 }
+    #[cfg(not(kani))] pub fn mul(a: u64, b: u64) -> u64 { a.wrapping_mul(b) }
+    #[cfg(not(kani))] pub fn udiv(a: u64, b: u64) -> u64 { a / b }
+    #[cfg(not(kani))] pub fn urem(a: u64, b: u64) -> u64 { a % b }
+    #[cfg(not(kani))] pub fn sdiv(a: i64, b: i64) -> i64 { a.wrapping_div(b) }
+    #[cfg(not(kani))] pub fn srem(a: i64, b: i64) -> i64 { a.wrapping_rem(b) }
+    /// i64::checked_div / checked_rem: None exactly on a zero divisor or MIN / -1, else the primitive
+    pub fn checked_div(a: i64, b: i64) -> Option<i64> { if b == 0 || (a == i64::MIN && b == -1) { None } else { Some(sdiv(a, b)) } }
+    pub fn checked_rem(a: i64, b: i64) -> Option<i64> { if b == 0 || (a == i64::MIN && b == -1) { None } else { Some(srem(a, b)) } }
+}
+"""
+
+UF_TRUST = {
+    r"unsafe \{": "E10: static memo table of the Ackermann-encoded uninterpreted functions (harness code, not extracted code)",
+    r"static mut MEMO": "E10: static memo table of the Ackermann-encoded uninterpreted functions (harness code, not extracted code)",
+}
+
+
+def op_module(ctx, uf=False):
     src = ctx.src(OP)
     items = []
     out = ["pub mod op {", OP_USE]
@@ -83,6 +133,9 @@ def op_module(ctx):
     out.append("impl Op {")
     for f in ["eval_value_unary", "eval_value_binary"]:
         it = src.item("fn", f, impl="Op")
+        if uf and f == "eval_value_binary":
+            for old, new, n in UF_RULES:
+                it.replace(old, new, count=n, rule="E10")
         items.append(it)
         out.append(it.render())
     out.append("}\n}")
@@ -106,18 +159,25 @@ pub mod bigstub {
     pub fn st_from_u64(_v: u64) -> BigUint { panic!("big-integer path reached from a <=64-bit input") }
     pub fn st_from_u32(_v: u32) -> BigUint { panic!("big-integer path reached from a <=64-bit input") }
     pub fn st_zero() -> BigUint { panic!("big-integer path reached from a <=64-bit input") }
+    pub fn st_payload<'a>(_s: &'a ValueBigUint) -> &'a BigUint { panic!("big-integer path reached from a <=64-bit input") }
+    pub fn st_is_xz(_s: &ValueBigUint) -> bool { panic!("big-integer path reached from a <=64-bit input") }
+    pub fn st_to_bigint(_s: &ValueBigUint) -> Option<BigInt> { panic!("big-integer path reached from a <=64-bit input") }
+    pub fn st_clone(_s: &ValueBigUint) -> ValueBigUint { panic!("big-integer path reached from a <=64-bit input") }
 }
 """
 
 STUB_ATTRS = "\n".join("#[cfg_attr(kani, kani::stub(crate::value::%s, crate::bigstub::%s))]" % (a, b) for a, b in [
     ("MaskCache::get", "st_get"), ("ValueBigUint::gen_mask", "st_gen_mask"), ("ValueBigUint::new_x", "st_new_x"),
     ("ValueBigUint::new_z", "st_new_z"), ("ValueBigUint::new", "st_new"), ("ValueBigUint::new_biguint", "st_new_biguint"),
-    ("ValueBigUint::new_bigint", "st_new_bigint")]) + """
+    ("ValueBigUint::new_bigint", "st_new_bigint"), ("ValueBigUint::payload", "st_payload"), ("ValueBigUint::mask_xz", "st_payload"),
+    ("ValueBigUint::is_xz", "st_is_xz"), ("ValueBigUint::to_bigint", "st_to_bigint")]) + """
 #[cfg_attr(kani, kani::stub(<num_bigint::BigUint as core::convert::From<u64>>::from, crate::bigstub::st_from_u64))]
 #[cfg_attr(kani, kani::stub(<num_bigint::BigUint as core::convert::From<u32>>::from, crate::bigstub::st_from_u32))]
-#[cfg_attr(kani, kani::stub(<num_bigint::BigUint as num_traits::Zero>::zero, crate::bigstub::st_zero))]"""
+#[cfg_attr(kani, kani::stub(<num_bigint::BigUint as num_traits::Zero>::zero, crate::bigstub::st_zero))]
+#[cfg_attr(kani, kani::stub(<crate::value::ValueBigUint as core::clone::Clone>::clone, crate::bigstub::st_clone))]"""
 
 STUB_TRUST = {
+    r"kani::stub\(<crate::value::ValueBigUint as": "E9: ValueBigUint::clone stubbed with panic! in <=64-bit harnesses (reaching big-integer code fails the harness)",
     r"kani::stub\(<num_bigint::BigUint as": "E9: BigUint::from(u64/u32) / BigUint::zero() stubbed with panic! in <=64-bit harnesses (reaching big-integer code fails the harness)",
     r"kani::stub\(crate::value::": "E9: ValueBigUint constructors / MaskCache::get stubbed with panic! in <=64-bit harnesses (reaching them fails the harness)",
 }
